@@ -133,6 +133,7 @@ func zktap(c *harness.Ctx) {
 }
 
 func tapBubble(c *harness.Ctx) {
+	pinRandomness(c)
 	epoch := time.Now()
 	z := fakezk.New()
 	var lat []time.Duration
